@@ -185,6 +185,7 @@ Definition clipped_var (f : stairsQ) (lo hi : option Qc) : res V :=
 
 (* corr = cov / (std_f * std_g); the model has no square root: it returns sign(cov) * corr^2 *)
 Definition corr_signed_square (f g : stairsQ) (lo hi : option Qc) (lag : Qc) (lc : lagclip) : res V :=
+  if negb (closed_ok f (if Qceqb lag 0 then g else shift g (- lag))) then Err EClosedMismatch else
   lift_res (cov_operands f g lo hi lag lc) (fun fgh =>
     let '(f', g', hi') := fgh in
     lift_res (clipped_var f' lo hi') (fun vf =>
